@@ -2,6 +2,7 @@
 C01 — dfs delivers each catalogued file's bytes exactly.
 -/
 import Beeb.Lemmas.Body
+import Beeb.Lemmas.Render
 import Beeb.Spec.Info
 
 namespace Beeb.Props.C01
@@ -67,5 +68,38 @@ theorem C01_fields (e : Entry) (he : ∀ i, e.m i < 256) :
 example : (⟨[65,32,32,32,32,32,32,36], [0,0,0,0,0x34,0x12,0x13,0x45]⟩ : Entry).startSector = 0x345 ∧
           (⟨[65,32,32,32,32,32,32,36], [0,0,0,0,0x34,0x12,0x13,0x45]⟩ : Entry).fileLength = 0x11234 := by
   constructor <;> decide
+
+/-- **list** prints exactly the documented rendering — for every byte string (no
+    restriction to values below 256 is needed): the CR-separated lines, each as its
+    1-based number right-aligned in 4 columns, a space, the line's bytes and a
+    newline; a final unterminated line gets no newline; an empty file prints
+    nothing.  `listRender` is the byte-at-a-time state machine of cmd_list.cc,
+    `listSpec` the split-and-number description. -/
+theorem C01_list (b : Bytes) : listRender b = listSpec b := Beeb.RenderL.listRender_eq b
+
+/-- **dump** prints exactly the documented rendering — for every byte string (a
+    value ≥ 256 would be printed with more hex digits by both sides, so no
+    hypothesis is needed): ⌈len/8⌉ rows, each the row's offset as 6 decimal digits,
+    8 cells of two upper-case hex digits (`**` past the end), and the 8 bytes as
+    characters with `.` for anything outside 32..126; an empty file prints nothing. -/
+theorem C01_dump (b : Bytes) : hexdump b = dumpSpec b := Beeb.RenderL.hexdump_eq b
+
+/-- non-vacuity: "AB␍C␍D" is `   1 AB⏎   2 C⏎   3 D` without a final newline, and
+    with a final CR the last line is terminated too -/
+example : listSpec [65,66,13,67,13,68] =
+            [32,32,32,49,32,65,66,10, 32,32,32,50,32,67,10, 32,32,32,51,32,68] ∧
+          listSpec [65,66,13,67,13,68,13] =
+            [32,32,32,49,32,65,66,10, 32,32,32,50,32,67,10, 32,32,32,51,32,68,10] ∧
+          listRender [65,66,13,67,13,68,13] = listSpec [65,66,13,67,13,68,13] := by
+  decide +kernel
+
+/-- non-vacuity: the 10 bytes "Hello ", 00, FF, 0D, "~" dump as
+    `000000 48 65 6C 6C 6F 20 00 FF Hello ..⏎000008 0D 7E ** ** ** ** ** ** .~......⏎` -/
+example : dumpSpec [72,101,108,108,111,32,0,255,13,126] =
+    [48,48,48,48,48,48, 32,52,56, 32,54,53, 32,54,67, 32,54,67, 32,54,70, 32,50,48, 32,48,48, 32,70,70,
+     32, 72,101,108,108,111,32,46,46, 10,
+     48,48,48,48,48,56, 32,48,68, 32,55,69, 32,42,42, 32,42,42, 32,42,42, 32,42,42, 32,42,42, 32,42,42,
+     32, 46,126,46,46,46,46,46,46, 10] := by
+  decide +kernel
 
 end Beeb.Props.C01
